@@ -80,3 +80,11 @@ add("C07", "fault_enumeration",
     "process level), transport closed, no library-created goroutine left 2 s after Close, race-detector log parsed and deduplicated. Orders between un-instrumented "
     "instructions are reached by stress only.",
     "DESIGN.md §3 C07", "race detector + forced schedules at instrumented yield points + goroutine-leak probe over a state matrix of real sessions on a transport model")
+
+add("C03", "exploration",
+    "Exploration. Every run covers all 152 (call shape x version x self-closing x header) cells. Thorough: ~150 000 requests in 9 500 sessions (positions 1-30, arguments 1 B-200 KB, "
+    "multi-byte, namespaced/attributed/empty/self-closed XML, chunk sizes of 2-6 digits incl. one-byte digit crossings). Each request is decoded by an independent strict "
+    "RFC 6241/6242 decoder and must be byte-identical to Input/FramedInput with exact separators, structurally carry the caller's arguments verbatim (encoding/xml walk), and "
+    "under the two serialisation options differ from the option-off twin only by the declaration or by self-closed whitespace-only elements. Known finding: the regexp rewrite "
+    "alters empty-pair look-alikes inside CDATA sections or comments.",
+    "DESIGN.md §3 C03", "real netconf.Driver over causal transport model against a strict independent stream decoder; per-call wire/XML oracles plus option-twin sessions (byte-aligned self-closing rewrite checker)")
